@@ -109,10 +109,16 @@ CHECKS["C01"] = {
              "skeletons whose numbers are all symbolic; every reported bin (plain, by sample, through Model.expected_data/expected_actualdata, "
              "with sample/bin clipping, with the non-default interpolation codes) is proved by z3 equal to the independent rate formula of the "
              "statement for ALL parameter values inside and outside |alpha|<=1 and all positive yields; channel slices tile the main data in the "
-             "reported order. " + _PIPE + ". Known finding (listed): clip_sample_data > 0 makes samples absent from a channel contribute."),
+             "reported order. " + _PIPE + ". Tier P (unbounded shapes): for symbolic numbers of modifiers, samples, batch rows, bins and parameters "
+             "the real apply methods of the seven *_combined classes, ParamViewer.get and _MainModel.expected_data / modifications are executed on the "
+             "abstract object state allowed by their class invariants and proved at a generic index: apply == where(declared[m,s,b], value of the "
+             "parameter the modifier is named after (through the interpolator contract for normsys / histosys, the index field of the same batch row "
+             "for the bin-wise types), neutral element); by-sample rate == prod_k prod_m factor_k * (nominal + sum_m delta), clipped only where the "
+             "sample exists; reported rate == sum over samples, then the bin clip (reductions over symbolic extents: congruence + split rules). "
+             "That the constructors establish the invariants is what the skeleton tier executes."),
     "note": ("interpolators replaced by their C03 contract; index/mask computations that are fully concrete are run by CPython with the numpy backend "
              "of the tree under test; other backends only through op contracts; the structure is bounded (stated), the numbers are not"),
-    "technique": "contract-based deductive verification: symbolic execution of the real constructors and evaluators per structure skeleton, z3 equality with an independent oracle; native replay",
+    "technique": "contract-based deductive verification: symbolic execution of the real constructors and evaluators per structure skeleton, z3 equality with an independent oracle; unbounded-shape proofs of apply / get / expected_data under class invariants; native replay",
 }
 CHECKS["C02"] = {
     "category": "proof",
